@@ -762,6 +762,14 @@ theorem translated_fsmtimer_stop_is_model (c : Cfg) (env : TEnv) (t : TSt) :
   unfold Gen.TrT.stop stopBody
   cases hs : env.superFails <;> ttsimp [translated_fsmtimer_stop_timer_is_model, FsmTimer.stop, hs]
 
+/-- `stop()` switches the block's persistence off (and forbids new timers): an event that arrives during the rest of
+    the clean-up cannot replace the state the simulator saved – with the timer's expiry – before it stopped the blocks
+    (finding C06-late-event-overwrites-saved-timer; without the statement `self.persistent = False` the translated
+    program leaves `persistOn` alone and `translated_fsmtimer_stop_is_model` fails) -/
+theorem stop_switches_persistence_off (s : St) :
+    (FsmTimer.stop s).persistOn = false ∧ (FsmTimer.stop s).stopped = true := by
+  simp [FsmTimer.stop]
+
 /-- `start()`: the timers are allowed only after the base classes have started -/
 theorem translated_fsmtimer_start_enables_timers (c : Cfg) (env : TEnv) (t : TSt) :
     Gen.TrT.start (tprims c env) t =
